@@ -70,6 +70,9 @@ boost::optional<H5Group> GroupHDF5::findEntityGroup(const nix::Identity &ident) 
         g = boost::make_optional(p->openGroup(needle, false));
     } else if (haveName) {
         g = p->findGroupByAttribute("name", iname);
+    } else {
+        // a name that looks like an id arrives here as an id
+        g = p->findGroupByAttribute("name", iid);
     }
 
     if (g && haveName && haveId) {
